@@ -35,6 +35,7 @@ type GhostAt struct {
 	LHS    SExpr
 	RHS    SExpr
 	Src    string
+	Pass   bool // "pass g = e": supplies the ghost parameter g of the callee at this call
 }
 
 type LoopSpec struct {
@@ -57,6 +58,7 @@ type Contract struct {
 	Extern     bool
 	Mode       map[string]string
 	Ghosts     []GhostDecl
+	GhostIns   []GhostDecl // ghost parameters: supplied by the caller (pass), universally quantified in the callee
 	Requires   []Clause
 	GhostAssume []Clause
 	OnPanic    []Clause // must hold whenever the function terminates abnormally (panic / exit)
@@ -111,7 +113,7 @@ func NewContractSet() *ContractSet {
 var reCallLoop = regexp.MustCompile(`^loop\s+([\w.]+#\d+)/(\d+)(?:\s+index\s+(\w+))?\s*:?$`)
 var reLoop = regexp.MustCompile(`^loop\s+(\d+)(?:\s+index\s+(\w+))?\s*:?$`)
 var reAtBody = regexp.MustCompile(`^at\s+body\s+loop\s+(\d+)\s*:\s*(.*)$`)
-var reAt = regexp.MustCompile(`^at\s+(before|after)\s+call\s+([\w.]+)#(\d+)\s*:\s*(.*)$`)
+var reAt = regexp.MustCompile(`^at\s+(before|after)\s+call\s+([\w.]+)#(\d+)\s*:\s*(pass\s+)?(.*)$`)
 var reNamed = regexp.MustCompile(`^([A-Za-z_][\w.\-#]*)\s*:\s*(.*)$`)
 var reProp = regexp.MustCompile(`^C\d{2,3}$`)
 
@@ -312,6 +314,16 @@ func (cs *ContractSet) LoadContractFile(path string, pkgName string) error {
 				cur.Notes = append(cur.Notes, rest)
 			case "modifies":
 				cur.Modifies = append(cur.Modifies, strings.Fields(rest)...)
+			case "ghost-in":
+				fs := strings.SplitN(rest, " ", 2)
+				if len(fs) != 2 {
+					return fail(i, "ghost-in NAME TYPE")
+				}
+				ty, err := ParseSType(strings.TrimSpace(fs[1]))
+				if err != nil {
+					return fail(i, "%v", err)
+				}
+				cur.GhostIns = append(cur.GhostIns, GhostDecl{fs[0], ty, nil})
 			case "ghost":
 				fs := strings.SplitN(rest, " ", 2)
 				if len(fs) != 2 {
@@ -430,11 +442,11 @@ func (cs *ContractSet) LoadContractFile(path string, pkgName string) error {
 					return fail(i, "bad ghost anchor %q", t)
 				}
 				n, _ := strconv.Atoi(m[3])
-				lhs, rhs, err := ParseGhostStmt(m[4])
+				lhs, rhs, err := ParseGhostStmt(m[5])
 				if err != nil {
 					return fail(i, "%v", err)
 				}
-				cur.GhostAts = append(cur.GhostAts, GhostAt{Before: m[1] == "before", Kind: "call", Callee: m[2], Ord: n, LHS: lhs, RHS: rhs, Src: m[4]})
+				cur.GhostAts = append(cur.GhostAts, GhostAt{Before: m[1] == "before", Kind: "call", Callee: m[2], Ord: n, LHS: lhs, RHS: rhs, Src: m[5], Pass: strings.TrimSpace(m[4]) == "pass"})
 			default:
 				return fail(i, "unknown clause %q", kw)
 			}
